@@ -48,7 +48,7 @@ def find_error_messages(fn, depth=0, seen=None):
 
 
 class FailModel(engine.RealModel):
-    def __init__(self, wb, src, workdir, breakable, init_broken, dynamic, cycles, tag):
+    def __init__(self, wb, src, workdir, breakable, init_broken, dynamic, cycles, tag, variant=0):
         from harness import plugin_fail
         from pycel import ExcelCompiler
         import os
@@ -61,7 +61,8 @@ class FailModel(engine.RealModel):
             if dynamic:
                 cells[b] = f'=VSWITCH("{b}",{cells[b][1:]})'
             elif b in init_broken:
-                cells[b] = f'={"NOSUCHFN" if i % 2 == 0 else "VFAIL"}({cells[b][1:]})'
+                fn = ('NOSUCHFN', 'VFAIL', 'VRECURSE')[(i + variant) % 3]
+                cells[b] = f'={fn}({cells[b][1:]})'
         self.cells, self.arrays = cells, arrays
         if dynamic:
             plugin_fail.BROKEN.update(init_broken)
@@ -153,13 +154,14 @@ def needs_broken(prec, n, broken, ovr):
 
 
 def job(arg):
-    name, src, breakable, init_broken, dynamic, mode, pool, settable, depth, seed = arg
+    name, src, breakable, init_broken, dynamic, mode, pool, settable, depth, seed = arg[:10]
+    variant = arg[10] if len(arg) > 10 else 0
     from pycel.excelutil import PyCelException
     rnd = random.Random(seed)
     wb = W.WORKBOOKS[name]
     prec = prec_map(wb)
     early = [] if dynamic else [b for i, b in enumerate(sorted(breakable))
-                                if b in init_broken and i % 2 == 0]
+                                if b in init_broken and (i + variant) % 3 == 0]
     g = engine.gen_fail_graph(name, wb, pool, src, breakable, init_broken, dynamic,
                               settable=settable, depth=depth, fail_early=early)
     raises = sum(1 for es in g.out.values() for e in es if e[0].get('raised'))
@@ -181,7 +183,7 @@ def job(arg):
     tag = f'{name}_{"".join(init_broken)}_{int(dynamic)}'
 
     def make_model():
-        return FailModel(wb, src, workdir, breakable, init_broken, dynamic, cycles, tag)
+        return FailModel(wb, src, workdir, breakable, init_broken, dynamic, cycles, tag + str(variant), variant)
 
     def on_step(model, s, act, spec_ret, t, hist):
         out['cases'] += 1
@@ -241,7 +243,54 @@ def job(arg):
         elif status == 'raise':
             out['violations'].append((f'{act} raised {type(got).__name__}: {got} '
                                       f'[{name}/{src}/{mode}]', case))
+        # graph building outside evaluate(): validate_calcs and trim_graph also
+        # evaluate ranges while they build; a failure there must leave no trace
+        if mode == 'iterative' and act['op'] == 'evaluate' and ':' not in act['n'] \
+                and rnd.random() < 0.15:
+            import contextlib
+            import io
+            try:
+                with contextlib.redirect_stdout(io.StringIO()):
+                    model.m.validate_calcs(output_addrs=[W.addr(act['n'])], verify_tree=False)
+            except Exception as exc:          # noqa
+                out['violations'].append((
+                    f'validate_calcs([{act["n"]}]) raised {type(exc).__name__}: {exc} '
+                    f'[{name}/{src}/{mode}]', case))
+            out['side_calls'] = out.get('side_calls', 0) + 1
+        if mode == 'iterative' and act['op'] == 'evaluate' and status == 'raise' and \
+                src == 'NoData' and rnd.random() < 0.25:
+            clone = make_model()
+            for a in hist[:-1]:
+                clone.do(a)
+            try:
+                clone.m.trim_graph([W.addr(sorted(wb['inputs'])[0])], [W.addr(act['n'])])
+                trimmed = True
+            except Exception:                 # noqa
+                trimmed = False
+            if not trimmed:
+                out['side_calls'] = out.get('side_calls', 0) + 1
+                st2, got2 = clone.do(act)
+                if st2 != 'raise':
+                    out['violations'].append((
+                        f'after a failing trim_graph, evaluate({act["n"]}) returned {got2!r} '
+                        f'instead of raising (it depends on {sorted(broken)}) '
+                        f'[{name}/{src}/{mode}]', case))
+                tr2 = clone.transient()
+                tr2.pop('error_messages', None)
+                if tr2:
+                    out['violations'].append((
+                        f'after a failing trim_graph transient state is not clean: {tr2} '
+                        f'[{name}/{src}/{mode}]', case))
         tr = model.transient()
+        if 'error_messages' in tr:
+            # stale log messages change what is logged, not what is computed: the
+            # statement does not speak about them (only a NOTE; D15 was judged by
+            # the bare AssertionError it caused)
+            n_msgs = tr.pop('error_messages')
+            if not out.get('noted_msgs'):
+                out['noted_msgs'] = True
+                out['notes'].append(f'{n_msgs} stale captured log message(s) after '
+                                    f'{act["op"]}({act.get("n")}) [{name}/{mode}] (not judged)')
         if tr:
             out['violations'].append((
                 f'after {act["op"]}({act.get("n")}) transient state is not clean: {tr} '
@@ -255,6 +304,38 @@ def job(arg):
                 drift.append(1)
                 out['notes'].append(f'spec-drift on {name}/{src} after '
                                     f'{[a["op"] + ":" + str(a.get("n")) + ":" + str(a.get("v", "")) for a in hist]}: {diffs[:2]}')
+
+    # a failure while trim_graph builds the graph of a not yet compiled cell
+    if src == 'NoData' and init_broken:
+        n_all = W.nodes(wb)
+        for node in n_all['formulas']:
+            if not needs_broken(prec, node, set(init_broken), {}):
+                continue
+            clone = make_model()
+            case = dict(workbook=name, source=src, mode=mode, cells=clone.cells,
+                        history=[dict(op='trim_graph', i=sorted(wb['inputs'])[:1], o=[node])])
+            try:
+                clone.m.trim_graph([W.addr(sorted(wb['inputs'])[0])], [W.addr(node)])
+                continue                      # nothing was evaluated while building
+            except Exception:                 # noqa
+                pass
+            out['side_calls'] = out.get('side_calls', 0) + 1
+            st2, got2 = clone.do(dict(op='evaluate', n=node))
+            if st2 != 'raise':
+                out['violations'].append((
+                    f'after a failing trim_graph on a fresh model, evaluate({node}) returned '
+                    f'{got2!r} instead of raising (it depends on {init_broken}) '
+                    f'[{name}/{src}/{mode}]', case))
+            elif not isinstance(got2, (PyCelException, RecursionError)):
+                out['violations'].append((
+                    f'after a failing trim_graph, evaluate({node}) raised '
+                    f'{type(got2).__name__} [{name}/{src}/{mode}]', case))
+            tr2 = clone.transient()
+            tr2.pop('error_messages', None)
+            if tr2:
+                out['violations'].append((
+                    f'after a failing trim_graph transient state is not clean: {tr2} '
+                    f'[{name}/{src}/{mode}]', case))
 
     steps, restarts, covered = engine.tour(g, make_model, on_step, rnd=rnd)
     out['restarts'] = restarts + 1
@@ -274,13 +355,16 @@ def run(tier, seed):
     P = [2]
     if tier == 'quick':
         jobs = [
-            ('capture', 'NoData', ['B1'], ['B1'], False, 'plain', P, ['A2'], 0, seed),
-            ('capture', 'NoData', ['B1'], ['B1'], False, 'iterative', P, ['A2'], 0, seed),
+            ('capture', 'NoData', ['B1'], ['B1'], False, 'plain', P, ['A2'], 0, seed, 0),
+            ('capture', 'NoData', ['B1'], ['B1'], False, 'iterative', P, ['A2'], 0, seed, 1),
+            ('capture', 'NoData', ['B1'], ['B1'], False, 'iterative', P, ['A2'], 0, seed, 2),
+            ('chain', 'NoData', ['C1'], ['C1'], False, 'plain', P, ['A1'], 0, seed, 2),
             ('nested', 'NoData', ['B1', 'B2'], [], True, 'plain', P, ['A1'], 0, seed),
             ('nested', 'Stored', ['B2'], ['B2'], False, 'plain', P, ['A1'], 0, seed),
             ('chain', 'NoData', ['B1'], [], True, 'iterative', P, ['A1'], 0, seed),
             ('cse', 'NoData', ['E1'], ['E1'], False, 'plain', P, ['A1'], 0, seed),
-            ('range', 'NoData', ['B1'], ['B1'], False, 'iterative', P, ['A1'], 0, seed),
+            ('range', 'NoData', ['B1'], ['B1'], False, 'iterative', P, ['A1'], 0, seed, 2),
+            ('nested', 'NoData', ['B1'], ['B1'], False, 'iterative', P, ['A1'], 0, seed, 1),
         ]
     else:
         jobs = []
@@ -289,7 +373,8 @@ def run(tier, seed):
             ins = sorted(W.WORKBOOKS[name]['inputs'])[:1]
             for f in forms:
                 for mode in ('plain', 'iterative'):
-                    jobs.append((name, 'NoData', [f], [f], False, mode, P, ins, 0, seed))
+                    for variant in (0, 1, 2):
+                        jobs.append((name, 'NoData', [f], [f], False, mode, P, ins, 0, seed, variant))
             jobs.append((name, 'NoData', forms[:2], [], True, 'plain', P, ins, 0, seed))
             jobs.append((name, 'NoData', forms[:2], [], True, 'iterative', P, ins, 0, seed))
             jobs.append((name, 'Stored', forms[:1], forms[:1], False, 'plain', P, ins, 0, seed))
